@@ -401,4 +401,46 @@ def main_wrap(fn):
     except MachineryError as e:
         print('MACHINERY-ERROR', e, flush=True)
         sys.exit(2)
+    except Exception:
+        import traceback
+        traceback.print_exc()
+        print('MACHINERY-ERROR uncaught exception in the harness', flush=True)
+        sys.exit(2)
     sys.exit(rc)
+
+
+# ---------------------------------------------------------------------------
+# Watchdog for calls into the code under test (a mutant may loop forever)
+
+class CallTimeout(Exception):
+    pass
+
+
+def _alarm(signum, frame):
+    raise CallTimeout()
+
+
+_ntimeouts = 0
+
+
+def guarded(fn, *a, _timeout=2.0, **k):
+    """Call fn(*a, **k) under an interval timer; return the result, or the string
+    'raise:<ExceptionType>' (which never equals a specification value)."""
+    import signal
+    global _ntimeouts
+    if _ntimeouts >= 8:
+        # the code under test hangs again and again (each hang is already a reported mismatch):
+        # stop spending the watchdog interval on every further call in this process
+        return 'raise:Timeout'
+    old = signal.signal(signal.SIGALRM, _alarm)
+    signal.setitimer(signal.ITIMER_REAL, _timeout)
+    try:
+        return fn(*a, **k)
+    except CallTimeout:
+        _ntimeouts += 1
+        return 'raise:Timeout'
+    except Exception as e:
+        return 'raise:' + type(e).__name__
+    finally:
+        signal.setitimer(signal.ITIMER_REAL, 0)
+        signal.signal(signal.SIGALRM, old)
